@@ -263,6 +263,11 @@ def work(job):
                 # REPRESENTATION: the text as instances of subclasses of str / list (Enum-like members with their own
                 # __str__)
                 _one({'kind': 'cmt', 'enc': enc, 'form': 'subclass'}, part, False)
+        if idx == 1 % nslots:
+            # IDENTITY: the same list / dict / block object at several positions of one content value (a shared rule line,
+            # a shared blank separator)
+            for enc in c17.alias_encs():
+                _one({'kind': 'cmt', 'enc': enc}, part, False)
     elif kind == 'trees':
         idx, nslots, max_nodes = job[1:]
         for k, tree in enumerate(ordered_trees(range(len(c17.LEAVES)), c17.INNER, max_nodes)):
